@@ -131,7 +131,7 @@ def parse_dump(data):
 
 
 def run_session(script_text, cmdname, queries, dump=False, setup='', cwd=None, timeout=None,
-                env=None, keep=False, direct_calls=None):
+                env=None, keep=False, direct_calls=None, pre_query=None):
     """queries: list of dicts {'words': [...], 'cword': int, 'wb': str|None}; words[0] is the
     command name.  direct_calls: optional list of raw bash lines run (with dump on) before
     the queries, e.g. calling _<cmd>_subword_3 directly.
@@ -164,6 +164,8 @@ def run_session(script_text, cmdname, queries, dump=False, setup='', cwd=None, t
             if wb is not None:
                 pre = 'COMP_WORDBREAKS=%s; ' % bash_quote(wb)
             words = ' '.join(bash_quote(w) for w in q['words'])
+            if pre_query:
+                pre += pre_query.replace('{i}', str(i)) + '; '
             if dump:
                 pre += "printf 'Q\\0%%s\\0' %d >&3; " % i
             lines.append(
